@@ -20,6 +20,11 @@ for mp in glob.glob(os.path.join(VERIF, "seeded", "*", "meta.json")):
     m = json.load(open(mp))
     for r in m.get("caught_by_rules", []):
         have.setdefault(r, []).append("seeded/" + os.path.basename(os.path.dirname(mp)))
+# a rule that reports an OPEN known finding on the unchanged tree is demonstrated by that finding (and its replay under
+# findings/); no variant of the tree can make it "more violated"
+for k in json.load(open(os.path.join(VERIF, "known_findings.json")))["findings"]:
+    if k.get("status") == "open":
+        have.setdefault(k["rule"], []).append("known-finding:" + k["instance"])
 missing = [r for r in sorted(rules) if r not in have]
 for r in sorted(rules):
     print("%-28s %-22s %d mutant(s)" % (r, ",".join(sorted(rules[r])), len(have.get(r, []))))
